@@ -4,6 +4,7 @@ usage: gwbdriver <declarations.schema.json> <MAJOR.MINOR>     (requests on stdin
 -/
 import Driver.FloatScalar
 import GwbVerif.Model.Parse.Json
+import GwbVerif.Model.Apps.Grid
 open Gwb Lean
 
 def hexDigit (n : UInt64) : Char :=
@@ -85,6 +86,13 @@ partial def loop (decl : Json) (version : String) (stdin : IO.FS.Stream) (worlds
   match ws with
   | [] => loop decl version stdin worlds
   | "schema" :: _ => IO.println "ok"; loop decl version stdin worlds
+  | ["parfor", a, b, c] =>
+    match a.toNat?, b.toNat?, c.toNat? with
+    | some start, some stop, some pool =>
+      let sl := parallelForSlices start stop pool
+      IO.println s!"ok {sl.length}{String.join (sl.map (fun (r : Nat × Nat) => s!" {r.1} {r.2}"))}"
+      loop decl version stdin worlds
+    | _, _, _ => IO.println "err bad-args"; loop decl version stdin worlds
   | "world" :: id :: file :: seed :: rest =>
     let auxPath := match rest with
       | "aux" :: p :: _ => some p
